@@ -910,5 +910,6 @@ def install(interp):
     m[("getitem", SBytes)] = _sbytes_getitem
     m[("dictkey", SymStr)] = _dict_contains_symstr
     m[("dictkey_get", SymStr)] = _dict_get_symstr
-    from . import npmodel
+    from . import npmodel, absarr
     npmodel.install(interp, m)
+    absarr.install(interp)
